@@ -132,6 +132,8 @@ struct LastValidRequest {
     request_hash: u64,
     response: Option<Response>,
     series: Option<ResponseSeries>,
+    /// the stored response must be re-sent as it is
+    is_echo: bool,
 }
 
 impl LastValidRequest {
@@ -146,6 +148,17 @@ impl LastValidRequest {
             request_hash,
             response,
             series,
+            is_echo: false,
+        }
+    }
+
+    fn echo(seq: Sequence, request_hash: u64, response: Option<Response>) -> Self {
+        LastValidRequest {
+            seq,
+            request_hash,
+            response,
+            series: None,
+            is_echo: true,
         }
     }
 }
@@ -980,17 +993,28 @@ impl OutstationSession {
                 {
                     // optional response
                     if let Some(response) = &mut result.response {
-                        *response = self
-                            .write_solicited(io, writer, info.addr, *response, database)
-                            .await?;
+                        if result.is_echo {
+                            // a retransmitted request is answered with the very same
+                            // bytes as before, the IIN is not evaluated again
+                            self.repeat_solicited(io, info.addr, writer, *response)
+                                .await?;
+                        } else {
+                            *response = self
+                                .write_solicited(io, writer, info.addr, *response, database)
+                                .await?;
+                        }
 
                         // check if an extra confirmation was added due to broadcast
-                        if response.header.control.con && result.series.is_none() {
+                        if !result.is_echo
+                            && response.header.control.con
+                            && result.series.is_none()
+                        {
                             result.series =
                                 Some(ResponseSeries::new(response.header.control.seq, true));
                         }
                     }
 
+                    result.is_echo = false;
                     self.state.last_valid_request = Some(result);
 
                     // maybe start a response series
@@ -1064,7 +1088,7 @@ impl OutstationSession {
                 }
 
                 // per the spec, we just echo the last response
-                Some(LastValidRequest::new(seq, hash, last_response, None))
+                Some(LastValidRequest::echo(seq, hash, last_response))
             }
             FragmentType::Broadcast(mode) => {
                 self.process_broadcast(info.id, database, mode, request)
